@@ -1,5 +1,6 @@
 import Req.Driver.L.C18Codec
 import Req.Client.Pipeline
+import Req.Client.Consume
 /-!
 Driver lane `c18pipe`: a scripted call (`Req.Pipeline.Stack`) → the caller-visible outcome and
 the per-attempt invocation log.
@@ -169,6 +170,28 @@ def showOut : Out → String
     "ret err=" ++ showErr err ++ " hooks=" ++ toString hooks ++ " " ++ showResp r ++ " log=" ++ showLog atts
   | .mustPanic e hooks atts => "must err=" ++ showErr (some e) ++ " hooks=" ++ toString hooks ++ " log=" ++ showLog atts
   | .exhausted atts => "exhausted log=" ++ showLog atts
+
+/-- `c18consume <uses> <c18pipe arguments…>`: the call, then the consumptions in order
+(`b` ToBytes, `s` ToString, `j` UnmarshalJson, `x` UnmarshalXml, `i` Into, `u` Unmarshal) →
+`errs=<e1>,<e2>,… rerr=<resp.Err at the end> cached=<bit>` (`nocall` when the call returns no
+response: crash / Must* panic / exhausted). -/
+def laneConsume : List String → String
+  | uses :: args =>
+    let us : Option (List Req.Consume.Use) := uses.toList.mapM fun c =>
+      if c == 'b' || c == 's' then some .toBytes
+      else if c == 'j' then some .unmarshalJson
+      else if c == 'x' then some .unmarshalXml
+      else if c == 'i' || c == 'u' then some .into
+      else none
+    match us, parseStack args with
+    | some us, some (fx, s) =>
+      match run fx s with
+      | .ret (some r) _ _ _ =>
+        let (r1, es) := Req.Consume.consumeAll r us
+        "errs=" ++ ",".intercalate (es.map showErr) ++ " rerr=" ++ showErr r1.err ++ " cached=" ++ showBool r1.bodyCached
+      | _ => "nocall"
+    | _, _ => "bad-op"
+  | _ => "bad-op"
 
 def lanePipe (args : List String) : String :=
   match parseStack args with
